@@ -179,6 +179,7 @@ fn main() {
     if only.is_some() {
         println!("NOTE: --only given: this is a partial (diagnostic) run, the evidence file is not a full C13 check");
     }
+    conc::RUN_CAP.store(if thorough { 3_000_000 } else { 200_000 }, std::sync::atomic::Ordering::SeqCst);
     let cr = conc::run_conc_mem(&tbl, if on("conc") { &hs } else { &[] });
     println!(
         "[part 2: in-memory, all schedules] {} harnesses, {} schedules, {} distinct histories, {} harnesses with >1 outcome, LOCK_CALLS={}, {:.1}s, violations={}",
@@ -288,7 +289,7 @@ fn main() {
     let states = seq_histories + mr.merges + cr.schedules + sr.schedules;
     let transitions = seq_ops + mr.op_execs + cr.steps + sr.steps;
     // exhaustive = every target depth of the tier was completed (no time cap hit anywhere)
-    let caps_hit = depth_log.iter().any(|e| e.get("completed").and_then(|c| c.as_bool()) == Some(false));
+    let caps_hit = depth_log.iter().any(|e| e.get("completed").and_then(|c| c.as_bool()) == Some(false)) || !cr.capped_harnesses.is_empty();
     let exhaustive = mem.completed && past.completed && gap.completed && only.is_none() && !caps_hit;
     let coverage = json!({
         "states": states,
